@@ -12,7 +12,7 @@ package utils
 
 //@ func GetLocalLock
 //@   mode math
-//@   props C12
+//@   props C12 C11 C05 C06 C13
 //@   requires ctx != nil && registryWF()
 //@   ensures[registered]            result != nil && sel(G.registry, lockName) != nil && registryWF()
 //@   ensures[one-mutex-per-name]    result.mutex != nil && result.mutex == sel(G.registry, lockName).(as *LocalLock).mutex
@@ -23,7 +23,7 @@ package utils
 
 //@ func (*LocalLock).Unlock
 //@   mode math
-//@   props C12 C11
+//@   props C12 C11 C05 C06 C13
 //@   requires its.mutex != nil && its.ctx != nil
 //@   ensures[stays-registered] G.registry == old(G.registry)
 //@   modifies nothing
